@@ -602,8 +602,40 @@ class Oracles:
         pm.locked = True
         for tm in pm.tasks.values():
             tm.forgotten = True
+        self.post_close_probe(pm)
         for fut, was_done_before in pm.until_closed_waiters:
             pass
+
+    def post_close_probe(self, pm: PoolM) -> None:
+        """Closed for good: every spawning method must raise PoolIsClosed and leave no trace."""
+        w, X = self.w, self.L.exceptions
+        pool = pm.pool
+        called: List[int] = []
+
+        async def never(*a: Any, **k: Any) -> None:
+            called.append(1)
+
+        before = (pool.num_running, pool.num_cancelled, pool.num_ended, len(asyncio.all_tasks(w.loop)))
+        if pm.spec["cls"] == "SimpleTaskPool":
+            attempts = [("start", lambda: pool.start(1))]
+        else:
+            attempts = [("apply", lambda: pool.apply(never, num=2)), ("map", lambda: pool.map(never, iter([1, 2]))),
+                        ("starmap", lambda: pool.starmap(never, [(1,)], num_concurrent=2)),
+                        ("doublestarmap", lambda: pool.doublestarmap(never, [{"a": 1}]))]
+        for name, fn in attempts:
+            try:
+                fn()
+            except X.PoolIsClosed:
+                continue
+            except Exception as e:
+                w.fail({"C08", "C09"}, "close/spawn-after-close-wrong-error", f"{name}: {type(e).__name__}")
+            else:
+                w.fail({"C08", "C09"}, "close/spawn-accepted-after-close", name)
+                pm.confused = True
+        after = (pool.num_running, pool.num_cancelled, pool.num_ended, len(asyncio.all_tasks(w.loop)))
+        if after != before or called:
+            w.fail({"C08", "C09"}, "close/spawn-after-close-left-trace", f"{before} -> {after}")
+        w.label("close:spawn-rejected-afterwards")
 
     async def actor_until_closed(self, op: dict) -> None:
         w = self.w
@@ -1025,6 +1057,8 @@ class Oracles:
             C = C | {"C08"}
         if pm.fault_seen:
             C = C | {"C12"}
+        if not rm.cancelled and ({"cancel_group", "cancel_all"} & self.ops_seen) and any(r.cancelled for r in pm.reqs):
+            C = C | {"C07"}      # a sibling of a cancelled group must keep progressing
         sp = rm.spawner
         if sp is not None:
             if not sp.done():
